@@ -17,6 +17,7 @@ edge (root / internal / leaf edge, on its left or right side: a padding bit of t
 """
 import json
 import vlib
+from trie_common import Guards, safe_engine, safe_sim, known_status, finish
 
 
 def run(ctx):
@@ -31,47 +32,70 @@ def run(ctx):
         return ctx.finish("model_checking", "replay of one recorded behaviour")
 
     thorough = not ctx.quick()
-    # (i) the repaired design: completeness and soundness against the whole alphabet
-    ctx.tlc_check("trie", "Proof.tla", "Proof_thorough.cfg" if thorough else "Proof_quick.cfg", timeout=3000,
-                  label="Proof.tla/repaired")
-    # (ii) the code as it is: sound against wire-level tampering, complete on non-empty tries
-    ctx.tlc_check("trie", "Proof.tla", "Proof_faithful.cfg", timeout=3000, label="Proof.tla/faithful")
-    if thorough:
-        # spec self-test: each switch alone must break a property
-        with open(vlib.VERIF + "/spec/trie/Proof_quick.cfg") as f:
-            base = f.read()
-        for sw in ("EmptyTrieVerifies", "CheckValueDepth"):
-            r = ctx.tlc_check("trie", "Proof.tla", "sw.cfg", files={"sw.cfg": base.replace(sw + " = TRUE", sw + " = FALSE")},
-                              expect_violation=True, label="Proof.tla %s=FALSE" % sw, timeout=600)
-            if r["violated"] is None:
-                raise vlib.Broken("switch %s does not matter in Proof.tla" % sw)
+    guards = Guards()
+
+    # Which model generates the expectations is decided by known_findings.json, never by the tree under test:
+    # a deviation listed as `known` => the model of the code as it is (switch FALSE); fixed / unlisted => repaired.
+    sw = {
+        "EmptyTrieVerifies": known_status(ctx, "membership-proof:empty-trie-rejected:trie2") is None,
+        "CheckValueDepth": known_status(ctx, "membership-proof:retyped-child:trie2") is None,
+        "LeftEdgeChecked": known_status(ctx, "range-proof:left-edge-omission:trie2") is None,
+    }
+    ctx.coverage["model_switches"] = {k: ("TRUE" if v else "FALSE") for k, v in sw.items()}
+    with open(vlib.VERIF + "/spec/trie/Proof_sim.cfg") as f:
+        simcfg = f.read()
+    for k, v in sw.items():
+        for old in ("TRUE", "FALSE"):
+            simcfg = simcfg.replace("%s = %s" % (k, old), "%s = %s" % (k, "TRUE" if v else "FALSE"))
 
     nruns = 10 if thorough else 2
     per_run = 40 if thorough else 20
     behaviours = []
     for i in range(nruns):
-        behaviours += ctx.tlc_simulate("trie", "ProofMBT.tla", "Proof_sim.cfg", depth=41 * per_run,
-                                       seed=ctx.seed * 1000 + i, timeout=900)
-    res = ctx.run_engine(binary, "TestProofReplay", {"h": 4, "maxv": 3, "behaviours": behaviours}, timeout=3000)
-    ctx.absorb(res, "trie", "TestProofReplay")
-    ctx.coverage["behaviours_proof"] = len(behaviours)
-    ctx.coverage["queries_replayed"] = res.get("steps", 0)
-    if res.get("steps", 0) < 100:
-        raise vlib.Broken("proof replay executed only %s queries" % res.get("steps"))
+        behaviours += safe_sim(ctx, guards, "trie", "ProofMBT.tla", "sim.cfg", depth=41 * per_run,
+                               seed=ctx.seed * 1000 + i, timeout=900, files={"sim.cfg": simcfg})
+    if behaviours:
+        res = safe_engine(ctx, binary, "TestProofReplay", {"h": 4, "maxv": 3, "behaviours": behaviours}, "trie", guards)
+        ctx.coverage["behaviours_proof"] = len(behaviours)
+        ctx.coverage["queries_replayed"] = res.get("steps", 0)
+        guards.require(res.get("steps", 0) >= 100 or ctx.violations, "proof replay executed only %s queries" % res.get("steps"))
 
     # ---- RPC: starknet_getStorageProof on the wire, independent verifier (engine trierpc, FFI stubs)
-    rpcbin = ctx.build_engine("trierpc", stubs=True)
-    sbeh = []
-    for i in range(3 if thorough else 1):
-        sbeh += ctx.tlc_simulate("trie", "StateMBT.tla", "State_sim.cfg", depth=32 * (40 if thorough else 24),
-                                 seed=ctx.seed * 1000 + 700 + i, timeout=900)
-    res = ctx.run_engine(rpcbin, "TestStorageProofRPC", {"behaviours": sbeh}, timeout=3000,
-                         env_extra={"CGO_LDFLAGS": "-L" + vlib.BUILD + "/lib"})
-    ctx.absorb(res, "trierpc", "TestStorageProofRPC")
-    ctx.coverage["rpc_chains"] = res.get("replayed", 0)
-    ctx.coverage["rpc_proof_checks"] = res.get("steps", 0)
-    if res.get("replayed", 0) < 10:
-        raise vlib.Broken("RPC storage-proof engine served only %s requests" % res.get("replayed"))
+    try:
+        rpcbin = ctx.build_engine("trierpc", stubs=True)
+    except vlib.Broken as e:
+        rpcbin = None
+        guards.failed.append(str(e)[:1500])
+    if rpcbin:
+        sbeh = []
+        for i in range(3 if thorough else 1):
+            sbeh += safe_sim(ctx, guards, "trie", "StateMBT.tla", "State_sim.cfg", depth=32 * (40 if thorough else 24),
+                             seed=ctx.seed * 1000 + 700 + i, timeout=900)
+        if sbeh:
+            res = safe_engine(ctx, rpcbin, "TestStorageProofRPC", {"behaviours": sbeh}, "trierpc", guards,
+                              env_extra={"CGO_LDFLAGS": "-L" + vlib.BUILD + "/lib"})
+            ctx.coverage["rpc_chains"] = res.get("replayed", 0)
+            ctx.coverage["rpc_proof_checks"] = res.get("steps", 0)
+            guards.require(res.get("replayed", 0) >= 10 or ctx.violations, "RPC storage-proof engine served only %s requests" % res.get("replayed"))
+
+    # ---- TLC on the specification (independent of the tree under test; last, so that it can never mask a divergence)
+    try:
+        # (i) the repaired design: completeness and soundness against the whole alphabet
+        ctx.tlc_check("trie", "Proof.tla", "Proof_thorough.cfg" if thorough else "Proof_quick.cfg", timeout=3000,
+                      label="Proof.tla/repaired")
+        # (ii) the code as it is: sound against wire-level tampering, complete on non-empty tries
+        ctx.tlc_check("trie", "Proof.tla", "Proof_faithful.cfg", timeout=3000, label="Proof.tla/faithful")
+        if thorough:
+            # spec self-test: each switch alone must break a property
+            with open(vlib.VERIF + "/spec/trie/Proof_quick.cfg") as f:
+                base = f.read()
+            for name in ("EmptyTrieVerifies", "CheckValueDepth"):
+                r = ctx.tlc_check("trie", "Proof.tla", "sw.cfg", files={"sw.cfg": base.replace(name + " = TRUE", name + " = FALSE")},
+                                  expect_violation=True, label="Proof.tla %s=FALSE" % name, timeout=600)
+                if r["violated"] is None:
+                    raise vlib.Broken("switch %s does not matter in Proof.tla" % name)
+    except vlib.Broken as e:
+        guards.failed.append(str(e)[:1500])
 
     ctx.assumptions += [
         "hashes are injective terms in Proof.tla (unforgeable up to collisions); core/crypto is trusted",
@@ -79,8 +103,8 @@ def run(ctx):
         "the RPC handlers are linked against FFI stubs (the VM is never called by starknet_getStorageProof)",
         "every tampered node is rebuilt from its content (no cached nodeFlag.Hash), as a proof received from outside; child retyping models a deserialiser that lets the sender choose the child type",
     ]
-    return ctx.finish(
-        "model_checking",
+    return finish(
+        ctx, guards, "model_checking",
         "exhaustive TLC over all key/value sets with <= 3 (thorough 4) keys at H=3 x all queried keys x both implementations x "
         "every single tampering (drop, child := junk / sibling, swap, edge path flip / shorten / lengthen, leaf replaced with "
         "re-hashed path, other key, retype; altered nodes rebuilt and stored under old key / new hash); binding: TLC-simulated behaviours "
